@@ -137,9 +137,16 @@ func (f *Frame) execCall(instr *ssa.Call, cc *ssa.CallCommon, reach string, st *
 	// no contract: havoc by inferred write set
 	w := f.eng.writesOf(f.ctx, callee)
 	f.eng.note("call without contract: results arbitrary, written heaps havocked: " + shortFuncName(FuncName(callee)))
+	before := st.clone()
 	ns := f.havocState(st, w, "call")
 	*st = *ns
-	f.callFrame(pos, "call "+shortFuncName(FuncName(callee))+" (no contract)", w, nil, true, reach)
+	if (w.All || len(w.Heaps) > 0) && f.eng.freshOnly(f.ctx, callee) {
+		// the callee writes only objects it allocates itself
+		f.eng.note("call without contract, writes only objects it allocates (syntactic check): " + shortFuncName(FuncName(callee)))
+		f.frameFacts(before, st, reach, nil)
+	} else {
+		f.callFrame(pos, "call "+shortFuncName(FuncName(callee))+" (no contract)", w, nil, true, reach)
+	}
 	f.setResult(instr, f.havocResults(sig, st, hint))
 }
 
@@ -512,4 +519,141 @@ func (f *Frame) copyOp(instr *ssa.Call, cc *ssa.CallCommon, reach string, st *St
 // lockOp: placeholder for the monitor model (see lock.go).
 func (f *Frame) lockOp(mu string, lock bool, reach string, st *State, pos any) {
 	f.lockModel(mu, lock, reach, st)
+}
+
+// freshOnly reports whether fn (transitively) writes only to objects it
+// allocated itself: from a caller's point of view no pre-existing object
+// changes. Decided syntactically on the SSA of the current tree.
+func (e *Engine) freshOnly(c *Ctx, fn *ssa.Function) bool {
+	name := FuncName(fn)
+	if v, ok := e.freshMemo[name]; ok {
+		return v
+	}
+	e.freshMemo[name] = false // recursion guard
+	if fn.Blocks == nil {
+		return false
+	}
+	var freshPtr func(v ssa.Value, depth int) bool
+	var freshSlice func(v ssa.Value, depth int) bool
+	freshPtr = func(v ssa.Value, depth int) bool {
+		if depth > 20 {
+			return false
+		}
+		switch x := v.(type) {
+		case *ssa.Alloc, *ssa.MakeMap, *ssa.MakeChan, *ssa.MakeClosure:
+			return true
+		case *ssa.FieldAddr:
+			return freshPtr(x.X, depth+1)
+		case *ssa.IndexAddr:
+			if _, ok := x.X.Type().Underlying().(*types.Slice); ok {
+				return freshSlice(x.X, depth+1)
+			}
+			return freshPtr(x.X, depth+1)
+		case *ssa.Phi:
+			for _, ed := range x.Edges {
+				if ed == v {
+					continue
+				}
+				if !freshPtr(ed, depth+1) {
+					return false
+				}
+			}
+			return true
+		}
+		return false
+	}
+	freshSlice = func(v ssa.Value, depth int) bool {
+		if depth > 20 {
+			return false
+		}
+		switch x := v.(type) {
+		case *ssa.MakeSlice:
+			return true
+		case *ssa.Slice:
+			if _, ok := x.X.Type().Underlying().(*types.Slice); ok {
+				return freshSlice(x.X, depth+1)
+			}
+			if _, ok := x.X.Type().Underlying().(*types.Pointer); ok {
+				return freshPtr(x.X, depth+1)
+			}
+		case *ssa.Call:
+			if b, ok := x.Common().Value.(*ssa.Builtin); ok && b.Name() == "append" {
+				return true
+			}
+		case *ssa.Phi:
+			for _, ed := range x.Edges {
+				if ed == v {
+					continue
+				}
+				if !freshSlice(ed, depth+1) {
+					return false
+				}
+			}
+			return true
+		}
+		return false
+	}
+	tmp := &Frame{eng: e, ctx: c, fn: fn}
+	for _, b := range fn.Blocks {
+		for _, in := range b.Instrs {
+			switch x := in.(type) {
+			case *ssa.Store:
+				if !freshPtr(x.Addr, 0) {
+					return false
+				}
+			case *ssa.MapUpdate:
+				if !freshPtr(x.Map, 0) {
+					return false
+				}
+			case *ssa.Go:
+				return false
+			case *ssa.Call, *ssa.Defer:
+				cc := in.(ssa.CallInstruction).Common()
+				if bi, ok := cc.Value.(*ssa.Builtin); ok {
+					switch bi.Name() {
+					case "copy":
+						if !freshSlice(cc.Args[0], 0) {
+							return false
+						}
+					case "delete":
+						if !freshPtr(cc.Args[0], 0) {
+							return false
+						}
+					case "clear":
+						return false
+					}
+					continue
+				}
+				if cc.IsInvoke() {
+					w := tmp.callWrites(cc)
+					if w.All || len(w.Heaps) > 0 {
+						return false
+					}
+					continue
+				}
+				callee := cc.StaticCallee()
+				if callee == nil {
+					return false
+				}
+				if specialCallee(callee) != "" {
+					continue
+				}
+				if fc := e.contractFor(callee); fc != nil && !fc.Inline {
+					if fc.SpecOnly && !fc.WritesAll && len(fc.Writes) == 0 && len(fc.Modifies) == 0 {
+						continue
+					}
+					return false
+				}
+				w := e.writesOf(c, callee)
+				if !w.All && len(w.Heaps) == 0 {
+					continue
+				}
+				if !e.freshOnly(c, callee) {
+					return false
+				}
+			}
+		}
+	}
+	e.freshMemo[name] = true
+	return true
 }
